@@ -19,8 +19,12 @@ Transcribes, for the FIXED code (fixes/C16-*.patch applied):
   as it is now is read from `Generated.TaskSites` (`covered`), and `stop` in this model removes exactly the
   covered tasks.
 
-Round 3: the fixes C16-session-destroyed-during-login, C16-tracking-cancel-lost-in-failed-write and
-C16-disconnect-releases-stream-first are part of the modelled code; the operation alphabet has a break (write
+Round 3: the fixes C16-session-destroyed-during-login, C16-tracking-cancel-lost-in-failed-write,
+C16-disconnect-releases-stream-first and C16-closing-cancellation-arrives-before-closed (every CLOSED listener runs
+whichever task notices the loss: `closeServer` is one atomic step) are part of the modelled code; losses noticed by
+a write of the keep-alive / wishlist job, a slow SessionInitialized listener of the application and established
+peer connections at `stop()` are exercised on the real code with the property monitor only (props/c16.py `_glue`).
+The operation alphabet has a break (write
 failure, close by another task, `stop()`, server-side EOF) at every suspension point of `login()` — before the
 reply and at every awaited write of the burst — (`Op.loginBreak`), losses during which a listener of the
 application stays suspended (`Op.lossHeld`, `Op.release`) and a reconnect by the application (`Op.connect`).
@@ -572,7 +576,7 @@ def applyBreak (c : Config) (b : Break) (st : State) : State × List Obs :=
       `writeFail`: fails).  The connection closes, the session is destroyed at once (client.py
       `_on_connection_state_changed`), the CLOSED listeners reset users / rooms / tracking.  The remaining writes
       of the burst are dropped by the closed connection (connection.py `send_message`), the user manager's
-      listener does not track anybody on a closed connection, a tracking task whose own write failed ends with the
+      listener does not track anybody for a destroyed session, a tracking task whose own write failed ends with the
       reset (user/manager.py, fixes C16-session-destroyed-during-login / C16-tracking-cancel-lost-in-failed-write),
       `login()` does not start a reader for a destroyed session and returns normally.  How many of the frames
       written before the break reach the server is up to the network (`delivered`).
